@@ -15,7 +15,17 @@ CUSTOM = {100: ("Hashy", ["#"], []), 101: ("Semi", [";;"], [["<<", ">>"]]), 102:
           # by swapped markers, by the name, or by one more pair (same name = an edit of that definition)
           104: ("Hashy", ["#", "!"], []), 105: ("Hashy", ["#!"], []), 106: ("Hashy", ["#", ""], []),
           107: ("Semi", [";;"], [[">>", "<<"]]), 108: ("Semi2", [";;"], [["<<", ">>"]]), 109: ("Slashy", ["/", "/"], [["/*", "*/"]]),
-          110: ("Semi", [";;"], [["<<", ">>"], ["/*", "*/"]]), 111: ("Semi", [";", ";"], [["<<", ">>"]])}
+          110: ("Semi", [";;"], [["<<", ">>"], ["/*", "*/"]]), 111: ("Semi", [";", ";"], [["<<", ">>"]]),
+          # renamed copies whose name sorts on the other side of the competing definition (extension ties are broken
+          # by name order: definitions are registered in name order and the last registration wins)
+          112: ("Aslashy", ["//"], [["/*", "*/"]]), 113: ("Zhashy", ["#"], []), 114: ("Asemi", [";;"], [["<<", ">>"]])}
+# (X, Y, Y renamed): X and Y claim one extension and name(X) < name(Y) so Y wins; after the rename name(Y') < name(X), X wins.
+# (X, Y, X renamed) with name(X') > name(Y) likewise. Each as (table before, table after) builders over an extension e.
+TIE_TRIPLES = [((100, 103), (100, 112)),          # Hashy/Slashy -> Hashy/Aslashy: winner Slashy -> Hashy
+               ((100, 103), (113, 103)),          # Hashy/Slashy -> Zhashy/Slashy: winner Slashy -> Zhashy
+               ((100, 101), (100, 114)),          # Hashy/Semi -> Hashy/Asemi: winner Semi -> Hashy
+               ((102, 101), (102, 114)),          # Dashy/Semi -> Dashy/Asemi: winner Semi -> Dashy
+               ((102, 100), (102, 113))]          # Dashy/Hashy -> Dashy/Zhashy: winner Hashy -> Zhashy (no flip: control)
 # (table A, table B, extension id of the file to look at): a SetLanguages A -> B (or B -> A) edit that a hash
 # which loses list boundaries / names / order would not notice
 BOUNDARY_PAIRS = [
@@ -67,8 +77,11 @@ def custom_syntax_wire(lid):
 
 def make_contents(rng, n=20):
     """Pool of texts; many share a size (every ordinary line is 8 characters + newline)."""
-    pool, seen = [], set()
-    while len(pool) < n:
+    # always present: the EMPTY file (a recognised source file without any line: total 0, still a result) and one
+    # file per comment style that carries the ignore-file directive (skipped, never a result)
+    pool = [""] + [d + "\n" + rng.choice(LINES) + "\n" for d in DIRECTIVES]
+    seen = set(pool)
+    while len(pool) < n + 4:
         k = rng.choice([1, 2, 2, 3, 3, 4])
         lines = [rng.choice(LINES) for _ in range(k)]
         if rng.random() < 0.12:
@@ -139,6 +152,50 @@ def table_key(table):
     for e, l in table:
         by.setdefault(l, []).append(EXTS[e])
     return tuple(sorted((CUSTOM[l][0], tuple(es), tuple(CUSTOM[l][1]), tuple(map(tuple, CUSTOM[l][2]))) for l, es in by.items()))
+
+
+def wire_langs(table):
+    """The table as the model reads it (first match per extension): definitions in DEscending name order, so that
+    the first claim of an extension is the one of the definition registered last = the effective owner. For a
+    single-owner table this is just one fixed order of its entries."""
+    groups = []
+    for e, l in table:
+        for g in groups:
+            if g[0] == l:
+                g[1].append(e)
+                break
+        else:
+            groups.append((l, [e]))
+    groups.sort(key=lambda g: CUSTOM[g[0]][0], reverse=True)
+    return [(e, l) for l, es in groups for e in es]
+
+
+def tie_history(rng, contents, tab):
+    """Two custom definitions claim one extension; a run stores entries; then ONE definition is renamed (nothing else
+    changes) so that the name order - hence the owner of the extension - flips; runs again; sometimes back."""
+    (x, y), (x2, y2) = rng.choice(TIE_TRIPLES)
+    e = rng.choice([10, 10, 11, 1, 2])
+    extra = [(11 if e == 10 else 10, y)] if rng.random() < 0.5 else []      # the renamed side may own a second extension
+    a = [(e, x), (e, y)] + extra
+    b = [(e, x2), (e, y2)] + [(q, y2) for q, _ in extra]
+    if rng.random() < 0.3:
+        a, b = b, a
+
+    def owner(table):
+        return dict(wire_langs(table)[::-1])[e]
+    la, lb = owner(a), owner(b)
+    cands = [cid for cid in range(1, len(contents) + 1) if tab.get((la, cid)) != tab.get((lb, cid))]
+    cid = rng.choice(cands) if cands else rng.randint(1, len(contents))
+    t = T0 + rng.randrange(0, 1000)
+    p = (rng.choice(FILE_STEMS), e)
+    xc = lambda: rng.choice(CMDS)
+    h = [("L", a), ("W", p, cid, t)]
+    if rng.random() < 0.5:
+        h.append(("W", (rng.choice(FILE_STEMS), rng.choice([1, 2, 10, 11])), rng.randint(1, len(contents)), t))
+    h += [("X", xc(), [], t + 2), ("L", b), ("X", rng.choice(["check", "files", "summary"]), [], t + 3), ("X", xc(), [], t + 4)]
+    if rng.random() < 0.5:
+        h += [("L", a), ("X", rng.choice(["check", "files", "summary"]), [], t + 5)]
+    return h
 
 
 def rand_langs(rng, many=False):
@@ -212,6 +269,34 @@ def rand_history(rng, ncontents, nops=None, corrupt=True):
             else:
                 h.append(("X", rng.choice(CMDS), ex, t))
     h.append(("X", rng.choice(CMDS), [], t + rng.choice([0, 1])))
+    return h
+
+
+ZERO_CIDS = [1]                     # content ids of make_contents that have no line at all
+IGNORE_CIDS = [2, 3, 4]             # ... that start with an ignore-file directive (in //, # and ;; spelling)
+
+
+def zero_history(rng, contents, tab):
+    """Empty recognised files (statistics all zero, still reported) next to files that carry the ignore-file
+    directive (never reported) and ordinary ones: cold run, warm runs, then the roles are swapped by rewrites
+    (empty <-> ignored <-> ordinary) and by renames, again followed by warm runs."""
+    t = T0 + rng.randrange(0, 1000)
+    xc = lambda: rng.choice(CMDS)
+    ext = rng.choice([1, 1, 2, 3, 10])
+    langs = canon_langs([(10, rng.choice([100, 101, 103]))]) if ext == 10 or rng.random() < 0.3 else []
+    stems = rng.sample(FILE_STEMS, 3)
+    pe, pi, po = [(s, ext) for s in stems]
+    ign = rng.choice(IGNORE_CIDS)
+    ordinary = rng.randint(5, len(contents))
+    h = ([("L", langs)] if langs else []) + [("W", pe, ZERO_CIDS[0], t), ("W", pi, ign, t), ("W", po, ordinary, t),
+                                             ("X", xc(), [], t + 2), ("X", rng.choice(["check", "files", "summary"]), [], t + 3), ("X", xc(), [], t + 4)]
+    kind = rng.choice(["swap", "swap", "rename", "truncate", "none"])
+    if kind == "swap":
+        h += [("W", pe, ign, t + 5), ("W", pi, ZERO_CIDS[0], t + 5), ("X", xc(), [], t + 7), ("X", rng.choice(["check", "files", "summary"]), [], t + 8)]
+    elif kind == "rename":
+        h += [("R", pe, (pe[0], rng.choice([1, 2, 3]))), ("CP", pi, (stems[0], ext)), ("X", xc(), [], t + 7), ("X", rng.choice(["check", "files", "summary"]), [], t + 8)]
+    elif kind == "truncate":
+        h += [("W", po, ZERO_CIDS[0], t + 5), ("W", pe, ordinary, t + 5), ("X", xc(), [], t + 7), ("X", rng.choice(["check", "files", "summary"]), [], t + 8)]
     return h
 
 
@@ -440,7 +525,7 @@ def ops_wire(h):
             links[o[1]] = o[2]
             out.append("P:%s:%s" % (wpath(o[2]), wpath(o[1])) if o[2] in live else "D:" + wpath(o[1]))
         elif o[0] == "L":
-            out.append("L:" + "/".join("%d=%d" % x for x in o[1]))
+            out.append("L:" + "/".join("%d=%d" % x for x in wire_langs(o[1])))
         elif o[0] == "C" and o[1] == "f":
             out.append("C:f:%s:%s" % (wpath(o[2]), ".".join(map(str, o[3]))))
         elif o[0] == "C" and o[1] == "x":
@@ -678,3 +763,118 @@ def replay_history(exe, contents, h, rng=None, threads="2", trunc_offsets=None):
                                  uncached=(un[0], normalise(o[1], un[1], sb.proj), un[2]), cache=view, hash=hsh, langs=list(langs),
                                  subdir=o[2] if o[0] == "XC" else None))
     return runs
+
+
+# ------------------------------------------------------------------ two-universe histories (state directories vs the structure scan)
+# The paired replay above runs every invocation twice in ONE project directory, so a side effect of the cached run on
+# the directory tree (its state directory) is seen by the --no-sloc-cache twin as well. Here the whole history runs in
+# two separate copies of the project: one where every invocation has the cache on, one where every invocation carries
+# --no-sloc-cache; the outputs and exit codes are compared invocation by invocation.
+NEST_CHAINS = [["sub"], ["services", "api"], ["pkg", "core", "inner"], ["a", "b", "c", "d"]]
+U_TEXTS = ["fn main() {\n    run();\n}\n", "x = 1\n", "// c\nx=1;\n", "a\nb\nc\nd\n", ""]
+
+
+def universe_case(rng, kind=None):
+    """-> {"tag", "git", "files": [[rel, text, mtime]], "steps": [["run", cwd, cmd, t] | ["write", rel, text, t] | ["rm", rel]]}"""
+    kind = kind or rng.choice(["nested", "nested", "nested", "nested2", "git", "git"])
+    t = T0 + rng.randrange(0, 1000)
+    files, steps = [], []
+    xc = lambda: rng.choice(["check", "check", "summary", "files", "snapshot"])
+    if kind in ("nested", "nested2"):
+        chains = rng.sample(NEST_CHAINS, 1 if kind == "nested" else 2)
+        k = rng.choice([1, 1, 2, 3])                     # sub-directories of each nested project
+        nf = rng.choice([1, 2])                          # files directly in each nested project besides its configuration
+        slack = rng.choice([0, 0, 0, 1])
+        limits = {"max_dirs": max(k, len(chains)) + slack}
+        if rng.random() < 0.5:
+            limits["max_files"] = nf + 1 + slack         # (.sloc-guard.toml counts)
+        if rng.random() < 0.3:
+            limits["max_depth"] = max(len(c) for c in chains) + 1 + slack
+        root_cfg = 'version = "2"\n\n[content]\nmax_lines = 3\n\n[structure]\n' + "".join("%s = %d\n" % kv for kv in sorted(limits.items()))
+        files.append([".sloc-guard.toml", root_cfg, t])
+        files.append(["top.rs", rng.choice(U_TEXTS), t])
+        for ch in chains:
+            d = "/".join(ch)
+            files.append([d + "/.sloc-guard.toml", 'version = "2"\n\n[content]\nmax_lines = %d\n' % rng.choice([2, 100]), t])
+            for i in range(nf):
+                files.append(["%s/n%d.rs" % (d, i), rng.choice(U_TEXTS), t])
+            for i in range(k):
+                files.append(["%s/%s/m%d.rs" % (d, ["src", "lib", "tests"][i], i), rng.choice(U_TEXTS), t])
+        order = [("/".join(ch), xc()) for ch in chains]
+        if rng.random() < 0.3:
+            steps.append(["run", "", "check", t + 1])   # the enclosing project first, before any nested state exists
+        for d, c in order:
+            steps.append(["run", d, c, t + 2])
+        steps.append(["run", "", "check", t + 3])
+        if rng.random() < 0.6:
+            d = order[0][0]
+            steps += [["write", d + "/src/m0.rs", rng.choice(U_TEXTS), t + 4], ["run", d, xc(), t + 5], ["run", d + "/src", xc(), t + 5],
+                      ["run", "", rng.choice(["check", "summary", "files"]), t + 6], ["run", "", "check", t + 7]]
+        return {"tag": "nested-structure", "kind": kind, "git": False, "files": files, "steps": steps, "limits": limits}
+    # git: the state directory of a project whose root has .git/ is .git/sloc-guard/; the user's scanner.exclude need not
+    # contain .git/** (it replaces the default list)
+    excl = rng.choice([["target/**"], [], ["target/**"], [".git/**"]])
+    gitdirs = 5                                          # `git init` creates branches hooks info objects refs
+    slack = rng.choice([0, 0, 1])
+    limits = {"max_dirs": gitdirs + slack}
+    if rng.random() < 0.4:
+        limits["max_files"] = 3 + slack                  # .git holds HEAD config description
+    cfg = 'version = "2"\n\n[scanner]\nexclude = %s\n\n[content]\nmax_lines = 3\n\n[structure]\n%s' % (
+        json.dumps(excl), "".join("%s = %d\n" % kv for kv in sorted(limits.items())))
+    files = [[".sloc-guard.toml", cfg, t], ["src/a/m.rs", rng.choice(U_TEXTS), t], ["top.rs", rng.choice(U_TEXTS), t]]
+    steps = [["run", "", xc(), t + 2], ["run", "", "check", t + 3]]
+    if rng.random() < 0.5:
+        steps += [["write", "src/a/m.rs", rng.choice(U_TEXTS), t + 4], ["run", "src", xc(), t + 5], ["run", "", "check", t + 6]]
+    return {"tag": "git-state-dir", "kind": kind, "git": True, "files": files, "steps": steps, "limits": limits, "exclude": excl}
+
+
+def universe_fixed():
+    """Always run first: the two minimal witnesses (seeded C12-m7 layout; D91)."""
+    t = T0
+    nested = {"tag": "nested-structure", "kind": "fixed", "git": False, "limits": {"max_dirs": 1},
+              "files": [[".sloc-guard.toml", 'version = "2"\n\n[structure]\nmax_dirs = 1\n', t],
+                        ["services/api/.sloc-guard.toml", 'version = "2"\n\n[content]\nmax_lines = 100\n', t],
+                        ["services/api/src/main.rs", U_TEXTS[0], t]],
+              "steps": [["run", "services/api", "check", t + 2], ["run", "", "check", t + 3]]}
+    git = {"tag": "git-state-dir", "kind": "fixed", "git": True, "limits": {"max_dirs": 5}, "exclude": ["target/**"],
+           "files": [[".sloc-guard.toml", 'version = "2"\n\n[scanner]\nexclude = ["target/**"]\n\n[structure]\nmax_dirs = 5\n', t],
+                     ["src/a/m.rs", U_TEXTS[0], t]],
+           "steps": [["run", "", "check", t + 2], ["run", "", "check", t + 3]]}
+    return [nested, git]
+
+
+def replay_universes(exe, case, threads="2"):
+    """Run the case in two project copies. -> list of {"step", "cached": (rc, out, err), "uncached": (...)} per run step."""
+    import subprocess
+    res = {}
+    for uni, flag in (("cached", []), ("uncached", ["--no-sloc-cache"])):
+        outs = []
+        with Sandbox("sgv-c12u-") as sb:
+            if case.get("git"):
+                subprocess.run(["git", "init", "-q", sb.proj], env=sb.env, capture_output=True, timeout=60)
+            for rel, text, mt in case["files"]:
+                os.utime(sb.write(rel, text), (mt, mt))
+            for st in case["steps"]:
+                if st[0] == "write":
+                    os.utime(sb.write(st[1], st[2]), (st[3], st[3]))
+                elif st[0] == "rm":
+                    fp = os.path.join(sb.proj, st[1])
+                    if os.path.lexists(fp):
+                        os.remove(fp)
+                else:
+                    _, cwd, cmd, t = st
+                    rc, out, err = sb.run(exe, cmd_args(cmd, []) + flag, cwd=os.path.join(sb.proj, cwd) if cwd else sb.proj,
+                                          env={"SGV_NOW": str(t), "RAYON_NUM_THREADS": threads})
+                    for root in (os.path.realpath(sb.proj), sb.proj):
+                        out, err = out.replace(root, "<P>"), err.replace(root, "<P>")
+                    outs.append((rc, normalise(cmd, out, sb.proj), err))
+            # the project entries the tool left behind (for the report only)
+            left = []
+            for dp, dn, fn in os.walk(sb.proj):
+                for d in dn:
+                    if d in (".sloc-guard", "sloc-guard"):
+                        left.append(os.path.relpath(os.path.join(dp, d), sb.proj))
+            res[uni] = (outs, sorted(left))
+    runs = [s for s in case["steps"] if s[0] == "run"]
+    return [{"step": s, "cached": c, "uncached": u} for s, c, u in zip(runs, res["cached"][0], res["uncached"][0])], \
+        {"cached": res["cached"][1], "uncached": res["uncached"][1]}
